@@ -364,13 +364,34 @@ def proto_rule(ctx):
     if ic and ef:
         g = ef[0]
         spl = [n for n in sir.walk(g.body) if n.get("k") == "mcall" and n["m"] == "splice"]
-        ok = False
-        d = "splice not found"
-        if spl:
-            s0 = spl[0]
-            rng = sir.expr_str(s0["args"][0]).replace(" ", "")
+        ok = None
+        d = "the place where the loop arguments are inserted is not in a form this rule reads"
+        # the list of loop arguments: an array / vec! literal naming them, inserted after the first fixed argument either by
+        # `splice(1..1, ..)` or by `first.chain(loop_args).chain(rest)`
+        lists = [n for n in sir.walk(g.body) if (n.get("k") == "array" or (n.get("k") == "mac" and n.get("name") == "vec")) and
+                 len([x for x in sir.walk(n) if x.get("k") == "path" and len(x["segs"]) == 1 and x["s"].startswith("arg_scope")]) >= 3]
+        chain_form = None
+        if not spl and len(lists) == 1:
+            lst = lists[0]
+            lname = None
+            for l_ in sir.walk(g.body):
+                if l_.get("k") == "local" and l_.get("init") is lst and l_["pat"].get("k") == "p_ident":
+                    lname = l_["pat"]["name"]
+            for c2 in sir.walk(g.body):
+                if c2.get("k") == "mcall" and c2["m"] == "chain" and c2["recv"].get("k") == "mcall" and c2["recv"]["m"] == "chain":
+                    mid = sir.strip_ref(c2["recv"]["args"][0])
+                    if mid is lst or (lname and sir.expr_str(mid) == lname):
+                        head, tail_ = c2["recv"]["recv"], sir.strip_ref(c2["args"][0])
+                        hn = sir.root_expr_name(head)
+                        first_of = [l_ for l_ in sir.walk(g.body) if l_.get("k") == "local" and l_["pat"].get("name") == hn and l_.get("init") is not None
+                                    and l_["init"].get("k") == "mcall" and l_["init"]["m"] == "next" and sir.expr_str(l_["init"]["recv"]) == sir.expr_str(tail_)]
+                        if first_of:
+                            chain_form = lst
+        if spl or chain_form is not None:
+            s0 = spl[0] if spl else None
+            rng = sir.expr_str(s0["args"][0]).replace(" ", "") if spl else "1..1"
             names = []
-            for x in sir.walk(s0["args"][1]):
+            for x in sir.walk(s0["args"][1] if spl else chain_form):
                 if x.get("k") == "path" and len(x["segs"]) == 1 and x["s"].startswith("arg_scope"):
                     names.append(x["s"])
             def camel(s):
@@ -453,7 +474,12 @@ def family_rule(ctx):
                 for a in n.get("args", []):
                     if a.get("k") == "lit" and a.get("t") == "str" and re.fullmatch(r"R\.\w+|[LMO]", a["v"]):
                         names.add(alias.get(a["v"], a["v"]))
-                if cn and cn.startswith(("to_proc_gen", "write_attribute_value")) and cn not in seen:
+                cn_l = (cn or "").split("::")[-1]
+                helper = bool(cn_l) and not cn_l.startswith(("to_proc_gen", "write_attribute_value")) and \
+                    len([h for h in tc.fns if h.name == cn_l and h.body and not h.base and "proc_gen" in h.module and not h.node.get("vis")]) == 1
+                if helper:
+                    cn = cn_l
+                if cn and (cn.startswith(("to_proc_gen", "write_attribute_value")) or helper) and cn not in seen:
                     cands = [h for h in tc.fns if h.name == cn and h.body and "proc_gen" in h.module]
                     if len(cands) > 1 and recv_type:
                         cands = [h for h in cands if h.base == recv_type] or cands
